@@ -36,6 +36,11 @@ def loop_program(L, gate_kind, exit_kind, sync, acc, limit=None, script=None, ne
     gkw = {}
     if sync == "signal":
         gkw["wait_for"] = ["it_done"]
+    if sync == "signal-after":
+        # the end-of-iteration signal comes from a node that runs one step AFTER the loop state changed: in between the
+        # gate is stale but not runnable, and the loop head must wait for its re-evaluation
+        gkw["wait_for"] = ["it_done"]
+        nodes.append(T.fn("ps", ["x0"], ["saved"], emit=["it_done"], behav={"py": "('s', x0)"}))
     if sync == "late":
         # the gate reads the loop state AND waits for a value derived from it one step later: in the step
         # right after the state changed the gate is stale but not yet runnable
@@ -87,7 +92,7 @@ def run_loop(L, exit_kind, sync, acc, decide, entry=0, x_init=0, total_init=100)
         acc_runs += 1
     if entry != 0:
         body(entry)  # tail first
-    elif sync == "signal":
+    elif sync in ("signal", "signal-after"):
         body(0)  # do-while: the gate cannot see the signal before the body ran once
     while True:
         counts["gt"] += 1
@@ -124,6 +129,7 @@ def _drop_exit(got, exp, x, w, acc_):
     """The exit node is not part of the loop body: a default-open gate lets it start early (C03), so only
     'ran at least once, and last with the final loop state' is demanded of it."""
     got.pop("mk", None)
+    got.pop("ps", None)
     e = exp.pop("fin", 0)
     g = got.pop("fin", 0)
     if e and not g:
@@ -146,6 +152,8 @@ def check_det(acc_, cfg, runner):
     exp_vals, exp_counts = run_loop(L, ek, sync, ac, lambda x0, k: x0 < limit, entry=entry)
     if sync == "late":
         exp_vals["mark"] = ("m", exp_vals["x0"])
+    if sync == "signal-after":
+        exp_vals["saved"] = ("s", exp_vals["x0"])
     w = {"kind": "det", "cfg": list(cfg), "runner": runner, "program": prog, "inputs": ins}
     if x.exc is not None or x.result is None or x.result.status.value != "completed":
         acc_.violation({"symptom": "loop-did-not-complete", "sync": sync}, w, f"loop {cfg}: status {x.status} error={x.exc or getattr(x.result, 'error', None)!r}")
@@ -154,6 +162,14 @@ def check_det(acc_, cfg, runner):
     got_counts.pop("after", None)
     exp_counts = {k: v for k, v in exp_counts.items() if v}
     _drop_exit(got_counts, exp_counts, x, w, acc_)
+    if sync == "signal-after":
+        # the signalling node also runs on the seeded state, so (for bodies of >= 2 nodes) the gate evaluates the seed once,
+        # concurrently with the first pass; that decision is discarded as stale before it can activate anything.  The
+        # statement fixes body executions and final values, which are compared exactly; the gate count only from below.
+        if got_counts.get("gt", 0) < exp_counts.get("gt", 0):
+            acc_.violation({"symptom": "iteration-count", "which": "gate", "sync": sync, "entry_mid_body": False}, w, f"loop {cfg}: gate ran {got_counts.get('gt', 0)}x, fewer than the {exp_counts.get('gt', 0)} decisions the loop needs")
+        got_counts.pop("gt", None)
+        exp_counts.pop("gt", None)
     if got_counts != exp_counts:
         diff = {k: (got_counts.get(k, 0), exp_counts.get(k, 0)) for k in set(got_counts) | set(exp_counts) if got_counts.get(k, 0) != exp_counts.get(k, 0)}
         kind = "gate" if set(diff) == {"gt"} else ("accumulator" if set(diff) <= {"acc"} else "body")
@@ -219,8 +235,13 @@ def check_maxiter(acc_, cfg, runner):
     S = len(traj)
     outs = None
     w = {"kind": "maxiter", "cfg": list(cfg), "runner": runner, "program": prog}
-    for eh in ("raise", "continue"):
-        x = execute(p, ins0, runner=runner, h=H(), error_handling=eh, max_iterations=m)
+    # run-time selections on the capped run: "the values computed so far" follow the selection, and a selected output that
+    # does not exist yet (the exit node's) must not turn the InfiniteLoopError report into another error
+    sels = [{}, {"select": ["x0"], "on_missing": "error"}] + ([{"select": ["done"], "on_missing": "error"}, {"select": ["x0", "done"], "on_missing": "warn"}] if ek == "node" else [])
+    for eh, selkw in [(eh_, sk) for eh_ in ("raise", "continue") for sk in sels]:
+        w = {"kind": "maxiter", "cfg": list(cfg), "runner": runner, "program": prog, "select": selkw.get("select")}
+        sel = selkw.get("select")
+        x = execute(p, ins0, runner=runner, h=H(), error_handling=eh, max_iterations=m, **selkw)
         acc_.evaluations += 1
         acc_.traces += 1
         if entry and any(c.nid == "pre" for c in x.h.calls):
@@ -235,7 +256,7 @@ def check_maxiter(acc_, cfg, runner):
         from hypergraph.exceptions import InfiniteLoopError
 
         if not needs_more:
-            ok = x.exc is None and x.result.status.value == "completed" and dict(x.result.values) == dict(xr.result.values)
+            ok = x.exc is None and x.result.status.value == "completed" and dict(x.result.values) == {k: v for k, v in xr.result.values.items() if sel is None or k in sel}
             if not ok:
                 acc_.violation({"symptom": "converging-loop-cut"}, {**w, "eh": eh}, f"max_iterations={m} suffices ({S} steps needed) but the run gave {x.status} / {jsonable(x.view())}")
             continue
@@ -247,7 +268,7 @@ def check_maxiter(acc_, cfg, runner):
             post = traj[m - 1].post if m - 1 < len(traj) else None
             if post is not None:
                 gouts = set(traj[0].graph.outputs)
-                exp = {k: v for k, v in post.values.items() if k in gouts}
+                exp = {k: v for k, v in post.values.items() if k in gouts and (sel is None or k in sel)}
                 if dict(x.result.values) != exp:
                     acc_.violation({"symptom": "partial-values-not-prefix"}, {**w, "eh": eh}, f"max_iterations={m}: values {jsonable(x.result.values)} are not the values after {m} steps {jsonable(exp)}")
 
@@ -321,12 +342,12 @@ def _det_cfgs(tier):
     for L in (1, 2, 3):
         for gk in ("route", "ifelse"):
             for ek in ("END", "node"):
-                for sync in ("state", "signal", "late"):
+                for sync in ("state", "signal", "late", "signal-after"):
                     for ac in (False, True):
                         if ac and L != 1:
                             continue  # acc on a multi-node body cannot be entered with the loop seed alone (see C08 observation)
                         for n in range(0, N + 1):
-                            entries = range(L) if sync != "signal" else (0,)
+                            entries = range(L) if sync not in ("signal", "signal-after") else (0,)
                             for entry in entries:
                                 for nested in (False, True):
                                     if nested and (entry != 0 or ac or L != 1):
